@@ -206,6 +206,8 @@ theorem get_is_extracted_single (h : List Bytes → UInt64) (env : Env) (pa pa' 
       simp only [hk', hf', Bool.false_eq_true, if_false] at hm
       split at hm
       · simp at hm
+      split at hm
+      · simp at hm
       · by_cases he : sp.key.isEmpty = true
         · rw [if_pos he] at hm; simp at hm
         · rw [if_neg he] at hm
